@@ -146,7 +146,7 @@ Theorem C18_unitary_CSUM3 : forall rho, Cunitary 9 (meval rho (m_csum 3)).
 Proof. exact CSUM3_unitary. Qed.
 
 (* CKMGate / CKMdgGate are unitary, but their hand-written get_grad is NOT the derivative
-   of get_unitary (finding D14; witness params (0,0,0,pi/2), d/d params[0]). *)
+   of get_unitary (finding C18-F1; witness params (0,0,0,pi/2), d/d params[0]). *)
 Theorem C18_unitary_CKM : forall rho, Cunitary 3 (meval rho (m_CKM false)).
 Proof. exact CKM_unitary. Qed.
 Theorem C18_unitary_CKMdg : forall rho, Cunitary 3 (meval rho (m_CKM true)).
@@ -155,7 +155,7 @@ Theorem C18_grad_CKM_refuted : ~ grad_ok G_CKM.
 Proof. exact CKM_grad_refuted. Qed.
 Theorem C18_grad_CKMdg_refuted : ~ grad_ok G_CKMdg.
 Proof. exact CKMdg_grad_refuted. Qed.
-(* the repaired gradients (fixes/D14.patch, transcribed as g_CKM_fixed) are the derivative *)
+(* the repaired gradients (fixes/C18-F1.patch, transcribed as g_CKM_fixed) are the derivative *)
 Theorem C18_grad_CKM_repaired : grad_ok G_CKM_fixed.
 Proof. exact CKM_fixed_grad. Qed.
 Theorem C18_grad_CKMdg_repaired : grad_ok G_CKMdg_fixed.
@@ -278,17 +278,37 @@ Theorem C18_eq_hash_distinct_args : forall st k k' calls i j, inv st ->
 Proof. exact distinct_keys_distinct_instances. Qed.
 (* ... and therefore the full statement "equal gates are equal and hash equally" is refuted
    for those classes: HGate(), HGate(2), HGate(radix=2) all have radix 2 and are three
-   different instances (finding D22) *)
+   different instances (finding C18-F9) *)
 Theorem C18_eq_hash_default_args_refuted :
   hgate_radix h_default = Some 2%Z /\ hgate_radix h_pos = Some 2%Z /\ hgate_radix h_kw = Some 2%Z /\
   cc_run cinit [h_default; h_pos; h_kw; h_default] = [Inst 0; Inst 1; Inst 2; Inst 0].
 Proof. exact default_args_refuted. Qed.
 
-(* What is NOT proved (kept visible): unitarity of the embedded matrix, the hand-written __eq__/__hash__ methods; these are covered by
-   the sampled correspondence and the implementation oracle only. *)
-Definition C18_composed_embedded_unitary_full : Prop :=
-  forall gdim n tgt (U : Cmat), (forall a b, a < gdim -> b < gdim -> tgt a = tgt b -> a = b) ->
-  (forall a, a < gdim -> tgt a < n) -> Cunitary gdim U -> Cunitary n (map_matrix gdim tgt U Cid).
+(* EmbeddedGate of a unitary is unitary whenever the level maps induce an injection of the
+   gate's basis states into the larger system (decided by [inj_range_b] for concrete maps) *)
+Theorem C18_composed_embedded_unitary : forall gdim n tgt U,
+  (forall a b, a < gdim -> b < gdim -> tgt a = tgt b -> a = b) -> (forall k, k < gdim -> tgt k < n) ->
+  Cunitary gdim U -> Cunitary n (map_matrix gdim tgt U Cid).
+Proof. exact Cembedded_unitary. Qed.
+Theorem C18_composed_embedded_gate_unitary : forall gate_rx big_rx maps U,
+  inj_range_b (fold_right Nat.mul 1 gate_rx) (fold_right Nat.mul 1 big_rx) (emb_target gate_rx big_rx maps) = true ->
+  Cunitary (fold_right Nat.mul 1 gate_rx) U ->
+  Cunitary (fold_right Nat.mul 1 big_rx) (embedded C0 C1 gate_rx big_rx maps U).
+Proof. exact Cembedded_gate_unitary. Qed.
+Theorem C18_model_embedded : forall rho gate_rx big_rx maps U,
+  meval rho (embedded c0 c1 gate_rx big_rx maps U) = embedded C0 C1 gate_rx big_rx maps (meval rho U).
+Proof. exact meval_embedded. Qed.
+
+(* The part of the property with no theorem (kept visible as a proposition): calc_params of a
+   GeneralGate reproduces its argument up to global phase - here for U3Gate, where the code's
+   formula (det, angle, arctan2) would be the witness.  Checked by the oracle only. *)
+Definition C18_calc_params_U3_full : Prop :=
+  forall V : Cmat, Cunitary 2 V ->
+  exists (rho : env) (phi : R), meq 2 (meval rho m_U3) (fun i j => Cmult (cis phi) (V i j)).
+
+(* What is NOT proved: calc_params / optimize (implementation oracle only), the hand-written
+   __eq__/__hash__ methods, the matrix-exponential / SVD classes (listed as uncovered in the
+   evidence), injectivity of emb_target for ALL valid level maps (decided per instance). *)
 
 (* ===== non-vacuity ============================================================ *)
 Example C18_nonvacuous_U3 :
@@ -304,6 +324,10 @@ Example C18_nonvacuous_controlled :
   map (active_rev (rev (combine [3] [[0; 2]]))) [0; 1; 2] = [true; false; true].
 Proof. split; [repeat constructor|]. split; reflexivity. Qed.
 (* the library is non-empty and contains parameterised, constant and qutrit classes *)
+(* a qubit gate on levels 0 and 2 of a qutrit: the side condition holds *)
+Example C18_nonvacuous_embedded :
+  inj_range_b 2 3 (emb_target [2] [3] [[0; 2]]) = true /\ map (emb_target [2] [3] [[0; 2]]) [0; 1] = [0; 2].
+Proof. split; reflexivity. Qed.
 Example C18_nonvacuous_frozen :
   frozen_valid 3 [(2, 7); (0, 5)] = true /\
   full_params [(2, 7); (0, 5)] [9] = [5; 9; 7] /\ unfixed_idxs 3 [(2, 7); (0, 5)] = [1].
